@@ -102,7 +102,18 @@ class FramedBuffer:
             fl = dict(idx[2])
             return (fl['start'][1] if 'start' in fl else 0), fl['end'][1]
         return None
+    # the interpreter's value-domain hooks (absx.Interp(domain=..)): only indexing is ours
+    def binop(self, op, a, b):
+        return None
+    def eq(self, a, b):
+        return None
+    def iter_elems(self, I, itv, st, fornode):
+        return None
+    def index(self, I, a, b, node, st):
+        return self.read('#index', [a, b], node, st, I) if a == self.buf else None
     def __call__(self, I, cal, args, node, st):
+        return self.read(cal, args, node, st, I)
+    def read(self, cal, args, node, st, I):
         if cal == self.parser:
             t = ('call', cal, tuple(args), node.get('id'))
             return [Out('val', t, st.event(('call', cal, tuple(args), node)).assume(('is', t, 'Ok'), False))]
@@ -289,7 +300,8 @@ def incomplete_answers(f, B, buf, parser, verdict, interp_kw=None):
     `verdict(out) -> (incomplete?, answer is need-more?)`.  Returns [(x, description)]."""
     bad = []
     for x in range(256):
-        I = FramedInterp(f, B, summaries=[FramedBuffer(buf, x, parser)], unroll=136, **(interp_kw or {}))
+        fb = FramedBuffer(buf, x, parser)
+        I = FramedInterp(f, B, summaries=[fb], domain=fb, local_try=True, unroll=136, **(interp_kw or {}))
         H = HeaderClass(buf, x)
         for o in I.run():
             if o.kind == 'loop':
